@@ -48,6 +48,21 @@ def check_history(ctx, cs):
             if not close_seq(got, expv[v]):
                 ctx.violate(site, tg + ["read_" + v], small, {"view": v, "expected": expv[v][:3], "got": got[:3]})
                 return
+        if order is orders[0] and len(exp["kv"][0]) - len(exp["P"]) >= 2 and all(len(U) == sz + dg + 1 for U, sz, dg in zip(exp["kv"], exp["size"], exp["deg"])):
+            # multiplying all weights by one positive constant - however small or large - moves no point
+            pd_ = len(exp["deg"])
+            try:
+                prms = [[U[dg] + fr_ * (U[-dg - 1] - U[dg]) for U, dg in zip(obj._knot_vector, obj._degree)] for fr_ in (0.0, 0.3, 0.7, 1.0)]
+                before = [obj.evaluate_single(q[0] if pd_ == 1 else q) for q in prms]
+                for c_ in (2.0 ** -30, 2.0 ** 30):
+                    obj.weights = [w * c_ for w in obj.weights]
+                    after = [obj.evaluate_single(q[0] if pd_ == 1 else q) for q in prms]
+                    if not close_seq(after, before):
+                        ctx.violate(site, tg + ["weights_scaled_by_%g" % c_], small, {"before": before[1], "after": after[1]})
+                        break
+                    obj.weights = [w / c_ for w in obj.weights]
+            except Exception as e:
+                ctx.violate(site, tg + ["weights_scaled", "raises"], small, {"exception": repr(e)[:200]})
         # reads inside the history returned the view of the definition at that point?  (checked through the final state of
         # the prefix history, which is itself a state of the model)
 
